@@ -7,4 +7,25 @@ ASSUMPTIONS = ['XMLException message loading is cut (code recorded only)', 'Memo
 HARNESSES = [
  dict(name='utf8_decode', entry='harness_utf8_decode', srcs=['C05/utf8_decode.cpp'], tus=['util/XMLUTF8Transcoder.cpp'],
       defs={'quick': {'N': 4}, 'thorough': {'N': 6}}, unwind={'quick': 'N+2', 'thorough': 'N+2'}, timeout={'quick': 300, 'thorough': 1500}),
+
+ dict(name='ucs4_decode', entry='harness_ucs4_decode', srcs=['C05/ucs4.cpp'], tus=['util/XMLUCS4Transcoder.cpp'],
+      defs={'quick': {'NW': 2}, 'thorough': {'NW': 3}}, unwind='4*NW+2'),
+ dict(name='ucs4_encode', entry='harness_ucs4_encode', srcs=['C05/ucs4.cpp'], tus=['util/XMLUCS4Transcoder.cpp'],
+      defs={'quick': {'NC': 3}, 'thorough': {'NC': 5}}, unwind='NC+2'),
+ dict(name='utf16', entry='harness_utf16', srcs=['C05/utf16.cpp'], tus=['util/XMLUTF16Transcoder.cpp'],
+      defs={'quick': {'NU': 3}, 'thorough': {'NU': 6}}, unwind='2*NU+3'),
+] + [
+ dict(name='table256_' + nm, entry='harness_table256', srcs=['C05/table256.cpp'],
+      tus=['util/XML256TableTranscoder.cpp', 'util/' + tu, 'util/XMLString.cpp'], defs={'all': {'WHICH': i}}, unwind=12)
+ for i, (nm, tu) in enumerate([('win1252', 'XMLWin1252Transcoder.cpp'), ('ibm037', 'XMLEBCDICTranscoder.cpp'),
+                               ('ibm1047', 'XMLIBM1047Transcoder.cpp'), ('ibm1140', 'XMLIBM1140Transcoder.cpp')])
 ]
+
+LEVEL_TEXT = ('Bounded model checking of the real transcoder code (objects built by their real constructors, calls through the real vtables, real throw sites): '
+              'for ALL byte strings / code-unit strings up to the stated length, all srcCount/maxChars/maxBytes, both byte orders, decode and encode equal a '
+              'reference written from the Unicode/XML specifications (UTF-8 Table 3-7 exactness incl. every overlong/surrogate/out-of-range/truncated case, UCS-4 scalar-value range, '
+              'UTF-16 byte order, single-byte code pages: every byte, every 16-bit unit, every 32-bit code point for canTranscodeTo). '
+              'The solver covers the whole input space within the bound, which the 3-document test suite never touches.')
+LEVEL_NOTE = ('Bounds: UTF-8 N<=4 bytes (quick) / 6 (thorough); UCS-4 2/3 words; UTF-16 3/6 units; code pages: one symbolic byte, unit and code point (exhaustive). '
+              'Not covered: ICU-provided encodings, alias lookup, whole documents re-encoded, encoding auto-detection beyond the harnesses listed in evidence. '
+              'Cuts: XMLException message loading, XMLTranscoder base ctor, XMemory new/delete -> malloc. Trusted: clang-14, ir2c (validated per run), CBMC.')
